@@ -956,10 +956,17 @@ func runC04(t veriflib.TB, c c04Case) (res c04Result) {
 			run1[r.Path] = true
 		}
 	}
+	// seeds that reached the preprocessor in run 1 (event log of the first child: "<time> <point> <n> <seed id>")
+	handled := map[string]bool{}
+	for _, l := range ch.hookLines() {
+		if f := strings.Fields(l); len(f) >= 4 && strings.HasPrefix(f[1], "preprocessor.") {
+			handled[f[3]] = true
+		}
+	}
 	for id, p := range queue {
 		if _, unfinished := left[id]; unfinished && !later[p] {
 			note := ""
-			if c.Seencheck && (run1[p] || left[id] == "CLAIMED") {
+			if c.Seencheck && (run1[p] || left[id] == "CLAIMED" || handled[id]) {
 				// the seed had been handed out in run 1: with the local seen-store on it was recorded as seen when it was
 				// preprocessed, before anything of it was captured
 				if veriflib.FindingOpen(c04KFSeen) {
